@@ -107,10 +107,11 @@ def Cert.auglOk (g : Grammar) : Bool :=
   | some x => g.prods.toList.all fun pr => !pr.rhs.contains x
 
 /-- the completeness certificate for GLR tables: `Cert.complete` without "at most one action per cell", with
-    the right-nulled reduce entries demanded, shifts deterministic, augmented symbols in no right-hand side -/
+    the right-nulled reduce entries demanded, shifts deterministic, augmented symbols in no right-hand side, STOP
+    never shifted -/
 def Cert.completeRN (g : Grammar) (t : Table) : Bool :=
   let c := Canon.mkCtx g
   Cert.firstOk g c && Cert.closureOk g c t && Cert.transOk g t && Cert.reduceRNOk g t c.nul &&
-  Cert.grammarOk g t && Cert.shiftDetOk t && Cert.auglOk g
+  Cert.grammarOk g t && Cert.shiftDetOk t && Cert.auglOk g && Cert.noShiftStop t
 
 end Rustemo
